@@ -14,6 +14,7 @@ import (
 	"dawgsverif/areas/frontarea"
 	"dawgsverif/areas/idsetarea"
 	"dawgsverif/areas/reacharea"
+	"dawgsverif/areas/sqlarea"
 	"dawgsverif/areas/transarea"
 	"dawgsverif/areas/travarea"
 	"dawgsverif/areas/walkarea"
@@ -29,6 +30,7 @@ var areas = map[string]map[string]cmd{
 	"trav":    {"run": travarea.Run, "pipe": travarea.Pipe},
 	"front":   {"gate": frontarea.Gate, "build": frontarea.Build, "fuzz": frontarea.Fuzz, "faithful": frontarea.Faithful},
 	"reach":   {"replay": reacharea.Replay},
+	"sql":     {"inject": sqlarea.Inject},
 	"trans":   {"hygiene": transarea.Hygiene, "total": transarea.Total},
 	"walk":    {"generic": walkarea.Generic, "models": walkarea.Models, "copy": walkarea.Copy},
 	"idset":   {"replay": idsetarea.Replay, "conc": idsetarea.Conc, "abba": idsetarea.Abba, "toggle": idsetarea.Toggle, "family": idsetarea.Family},
